@@ -18,6 +18,8 @@ OPS = [
     ("rendir", "/d", "/m/d", {"d", "m"}), ("rendir", "/m", "/d", {"d", "m"}),        # moving a folder into another one, then that one onto the vacated name
     ("delete", "/e/a", None, {"d", "e"}), ("rmdir", "/e", None, {"d", "e"}),          # emptying and removing a renamed folder
     ("rename", "/x", "/a", {"a", "x"}),                                               # renaming back
+    ("mkdir", "/d/t", None, {"d"}), ("mkdir", "/d/t/k", None, {"d"}),                 # a folder two levels below a folder that is renamed next
+    ("rename", "/a", "/b", {"a", "b"}),                                               # onto a name freed by an earlier (synchronised) deletion
 ]
 
 
@@ -95,9 +97,13 @@ def _factory(params, env=None):
                         raise _lab.ConcreteEnv.Mismatch("disjointness constraint violated on replay")
         # interleaving of the two sequences: position of each remote operation among the local ones
         seq = [(0, i) for i in il]
-        for j in ir:
-            pos = e.choose("pos", len(seq) + 1)
-            seq.insert(pos, (1, j))
+        if params.get("order"):
+            li, ri = iter(il), iter(ir)
+            seq = [(0, next(li)) if c == "L" else (1, next(ri)) for c in params["order"]]
+        else:
+            for j in ir:
+                pos = e.choose("pos", len(seq) + 1)
+                seq.insert(pos, (1, j))
         ref = dict(lab.tree(0))
         h = History(lab, e)
         h.mode = params.get("slotmode")
@@ -110,7 +116,7 @@ def _factory(params, env=None):
                 if d[0] not in ("noop", "failed"):
                     h.real_ops += 1
                     ref_apply(ref, kind, src, dst, content)
-                h.slots(params["slotsper"][k] if params.get("slotsper") else params["slots"])
+                h.gap(params["slotsper"][k] if params.get("slotsper") else params["slots"])
             h.drain()
             tl, tr = lab.tree(0), lab.tree(1)
             if tl != ref or tr != ref:
@@ -166,11 +172,15 @@ def jobs(tier):
         sl = 1 if (f == "oid" or not q) else 0
         out.append({"harness": "merge", "params": dict(pr4, flavour=f, base=4, nl=2, nr=1, slots=sl, prefixL=[16]), "label": "%s/base4/2+1-ops/%d-slot/first=rendir-d-m" % (f, sl)})
     # fixed stories on one side under deeper schedules (slots after each position of the interleaved sequence); the other side creates /n
-    for f in ("oid", "path"):
-        out.append({"harness": "merge", "params": dict(flavour=f, nl=3, nr=1, slots=0, slotsper=[2, 1, 1, 1], prefixL=[8, 18, 19], prefixR=[6]),
+    for f in ("oid", "path", "mixed"):
+        out.append({"harness": "merge", "params": dict(flavour=f, nl=3, nr=1, slots=0, slotsper=[1, 1, 1, 1], prefixL=[8, 18, 19], prefixR=[6]),
                     "label": "%s/story=folder-renamed-emptied-removed" % f})
         out.append({"harness": "merge", "params": dict(flavour=f, nl=2, nr=1, slots=0, slotsper=[2, 1, 1], prefixL=[2, 20], prefixR=[6]),
                     "label": "%s/story=renamed-and-back" % f})
+        out.append({"harness": "merge", "params": dict(flavour=f, nl=3, nr=1, slots=0, slotsper=["Q", 0, 1, 1], prefixL=[21, 22, 8], prefixR=[6], order="LLLR"),
+                    "label": "%s/story=deep-new-folder-then-top-folder-renamed" % f})
+        out.append({"harness": "merge", "params": dict(flavour=f, nl=2, nr=1, slots=0, slotsper=["Q", 2, 1], prefixL=[4, 23], prefixR=[6], order="LLR"),
+                    "label": "%s/story=renamed-onto-a-name-freed-by-a-synchronised-deletion" % f})
     for f, nl, nr, sl in combos:
         p = {"flavour": f, "nl": nl, "nr": nr, "slots": sl}
         if not q:
